@@ -4,6 +4,7 @@ from . import r_storage2 as S2
 from . import r_unwind as U
 from . import r_entity as E
 from . import r_spec as SP
+from . import r_macros as M
 
 COMMON_ASSUMPTIONS = [
     "rustc nightly front end, MIR construction and trait resolution are correct; the mirfacts extractor serialises MIR faithfully",
@@ -43,9 +44,9 @@ prop(
 
 prop(
     "C02",
-    rules=["C02-R1", "C02-R2", "C02-R4", "X-EXT", "C02-R5"],
+    rules=["C02-R1", "C02-R2", "C02-R4", "X-EXT@remover", "X-EXT@creator", "X-EXT@grower", "X-EXT@view", "X-EXT@borrow", "X-EXT@other", "C02-R5"],
     mir_rules=[S.rule_creator, S.rule_remover, S.rule_extent, S2.rule_grower, SP.rule_iter_loops],
-    floors={"C02-R1": lambda c: 3 * n_storages(c), "C02-R2": lambda c: 4 * n_storages(c), "X-EXT": lambda c: 40 * n_storages(c)},
+    floors={"C02-R1": lambda c: 3 * n_storages(c), "C02-R2": lambda c: 4 * n_storages(c), "X-EXT@remover": lambda c: 3 * n_storages(c), "X-EXT@creator": lambda c: n_storages(c), "X-EXT@view": lambda c: 2 * n_storages(c)},
     explanation="Static analysis. Decides: C02-R1 the creator writes the handle and all N components at one index = pre-increment len, component i into column i; "
     "C02-R2 the remover swap_removes all N+1 arrays at the resolved dense index with the pre-decrement len and returns the values moved out of columns 0..N-1 in order; "
     "X-EXT every slice/raw view of an array is cut at the extent it is valid for (len for dense arrays, capacity for slots), fresh at the call.",
@@ -54,7 +55,7 @@ prop(
 
 prop(
     "C03",
-    rules=["C03-R1", "C03-R7", "X-EXT", "C03-R3", "C03-R4", "C03-R5", "C14-R3"],
+    rules=["C03-R1", "C03-R7", "X-EXT@resolver", "X-EXT@view", "X-EXT@borrow", "C03-R3", "C03-R4", "C03-R5", "C14-R3"],
     mir_rules=[S.rule_entity_resolver, S.rule_direct_resolver, S.rule_extent, E.rule_layout, E.rule_id_bits_inert, E.rule_version_opaque, E.rule_conversions],
     floors={"C03-R1": lambda c: 4 * n_storages(c), "C03-R7": lambda c: 2 * n_storages(c)},
     explanation="Static analysis. Decides: C03-R1/R7 every unchecked read whose index derives from a key is dominated by the exact bounds guard against the extent of the array it indexes "
@@ -85,7 +86,7 @@ prop(
 
 prop(
     "C12",
-    rules=["C12-R1", "C12-R2", "C12-R3", "C12-R4", "X-WMW", "C12-R5"],
+    rules=["C12-R1", "C12-R2", "C12-R3", "C12-R4", "X-WMW", "X-EXT@ctor", "X-EXT@grower", "C12-R5"],
     mir_rules=[S.rule_creator, S.rule_remover, S2.rule_push_guards, S2.rule_grower, S2.rule_populate, S2.rule_ctor, S2.rule_accessors, S2.rule_who_may, E.rule_layout],
     floors={"C12-R1": lambda c: 4 * n_storages(c), "C12-R4": lambda c: 4 * n_storages(c), "C12-R2": lambda c: 18 * n_storages(c), "C12-R3": lambda c: 4 * n_storages(c), "X-WMW": lambda c: 10 * n_storages(c)},
     explanation="Static analysis. Decides: C12-R1 len changes by exactly +1 in the creator and -1 in the remover, capacity is written by neither; X-WMW len/capacity/free_head/version are written "
@@ -97,8 +98,8 @@ prop(
 
 prop(
     "C04",
-    rules=["C04-R2", "C04-R3", "C04-R4", "C04-R5", "X-WMC", "C13-R2"],
-    mir_rules=[S.rule_remover, S2.rule_dropper, S2.rule_push_guards, S2.rule_cloner, S2.rule_who_may],
+    rules=["C04-R2", "C04-R3", "C04-R4", "C04-R5", "X-WMC", "C13-R2", "X-EXT@dropper"],
+    mir_rules=[S.rule_remover, S2.rule_dropper, S2.rule_push_guards, S2.rule_cloner, S2.rule_who_may, S.rule_extent],
     floors={"C04-R2": lambda c: n_storages(c), "C04-R3": lambda c: 5 * n_storages(c), "C04-R4": lambda c: 5 * n_storages(c), "C04-R5": lambda c: n_storages(c), "X-WMC": lambda c: 6 * n_storages(c)},
     explanation="Static analysis. Decides: X-WMC the ownership primitives (write, swap_remove, drop_to, dealloc, grow) are called only by the functions whose role owns them; "
     "C04-R2 the remover moves exactly one value out of each of the N+1 arrays and pairs it with one len decrement; C04-R3 Drop drops cells [0,len) of each column exactly once before freeing each array once with the tracked capacity, "
@@ -109,7 +110,7 @@ prop(
 
 prop(
     "C06",
-    rules=["C06-R1", "C06-R2", "X-EXT", "C06-R3"],
+    rules=["C06-R1", "C06-R2", "X-EXT@slices", "C06-R3"],
     mir_rules=[S2.rule_iters, S.rule_extent, SP.rule_iter_loops],
     floors={"C06-R1": lambda c: 6 * n_storages(c), "C06-R2": lambda c: 12 * n_storages(c)},
     explanation="Static analysis. Decides: C06-R1 both raw-pointer iterators start at the column bases with remaining = len, pointer field i over column i; C06-R2 next() yields None iff remaining==0, otherwise the "
@@ -140,7 +141,7 @@ prop(
 
 prop(
     "C13",
-    rules=["C13-R1", "C13-R2", "C13-R3", "X-EXT"],
+    rules=["C13-R1", "C13-R2", "C13-R3", "X-EXT@cloner"],
     mir_rules=[S2.rule_cloner, S.rule_extent],
     floors={"C13-R1": lambda c: 4 * n_storages(c), "C13-R2": lambda c: 4 * n_storages(c), "C13-R3": lambda c: 4 * n_storages(c)},
     explanation="Static analysis. Decides: C13-R1 the clone's len/version/capacity/free_head (and pending event logs) have the source's values as origin; C13-R2 all capacity slots and the live prefix of every dense array are cloned element-wise at equal index "
@@ -160,10 +161,13 @@ prop(
 
 prop(
     "C05",
-    rules=["C05-R5", "C05-R7"],
-    mir_rules=[SP.rule_find_dispatch, SP.rule_iter_loops],
-    floors={"C05-R5": 60, "C05-R7": 30},
-    explanation="Static analysis of the specimen expansions against an independent matcher (hand-written from the specimen declaration). Decides: C05-R7 for each of 26 query sites over 5 macros, the set of world fields walked / match arms present "
+    rules=["C05-R1", "C05-R2", "C05-R3", "C05-R4", "C05-R5", "C05-R7"],
+    mir_rules=[M.rule_bind_query_params, M.rule_contains_component, M.rule_bind_one_of, M.rule_generators, SP.rule_find_dispatch, SP.rule_iter_loops],
+    floors={"C05-R1": 40, "C05-R2": 9, "C05-R3": 7, "C05-R4": 9, "C05-R5": 60, "C05-R7": 30},
+    explanation="Static analysis, universal part on the macro crate's own MIR: C05-R1 in bind_query_params a parameter binds to an archetype iff (Component) !cfg_enabled or contains_component(archetype, name), (Entity/EntityDirect<A>) !cfg_enabled or archetype.name == A, "
+    "(wildcard/dynamic kinds) always, (OneOf) bind_one_of is Ok(Some(_)); bound is cleared per archetype and the archetype is kept iff bound.len()==params.len(); C05-R2 contains_component compares whole Strings over all components; "
+    "C05-R3 bind_one_of loops all members, second hit is an error, returns the unique hit; C05-R4 each generator emits per archetype iff bound_params.get(&name) is Some and errors when nothing matched. "
+    "Sampled part: static analysis of the specimen expansions against an independent matcher (hand-written from the specimen declaration). Decides: C05-R7 for each of 26 query sites over 5 macros, the set of world fields walked / match arms present "
     "equals the set of archetypes the matcher computes (components, OneOf with exactly one hit, typed entity parameters, cfg-disabled parameters); C05-R5 each find arm fetches from the archetype of its own variant, "
     "the closure only runs inside .map of that fetch, and the fall-through arm returns None without running a closure.",
     not_decided="nothing about run-time entity sets; these rules sample query programs -- the universal rules on the binder functions of the macro crate are listed separately",
@@ -190,4 +194,27 @@ prop(
     "C14-R3 raw()/from_raw() are mutually inverse and from_raw rejects only generation 0; C14-R4 the 4 transmutes are &W->&I with W repr(transparent) over its only non-ZST field I, same lifetime and mutability; "
     "C14-R5 the six generated TryFrom dispatch tables and SelectArchetype::archetype_id map id k to the archetype whose ARCHETYPE_ID is k, each archetype once, otherwise Err; C14-R6 Hash reads a subset of what Eq compares and Eq compares every field; C14-R7 typed archetype_id()/new use A::ARCHETYPE_ID.",
     not_decided="behaviour of HashSet/HashMap (std)",
+)
+
+prop(
+    "C15",
+    rules=["C15-R1", "C15-R2", "C15-R3", "C15-R4", "C15-R7", "C16-R4"],
+    mir_rules=[M.rule_advance_id, M.rule_dataworld, SP.rule_tables],
+    floors={"C15-R1": 5, "C15-R2": 5, "C15-R3": 20, "C15-R4": 2, "C15-R7": 10},
+    explanation="Static analysis, universal over declarations (on the generator's own MIR): C15-R1 advance_attribute_id returns Ok(Some(next)) with exactly three origins under exactly these guards: explicit id iff present, else checked_add(previous, 1) iff a previous id exists, else 0; "
+    "overflow of checked_add is an error; C15-R2 every Ok is on the None edge of ids.insert(next, _), the Some edge is an error; C15-R3 in DataWorld::new archetypes are visited front to back with one shared id map and a loop-carried previous id, "
+    "components get a fresh map and previous=None inside each archetype iteration, cfg-disabled items are skipped before id assignment; C15-R4 DataArchetype.id/DataComponent.id are the ids just assigned. "
+    "Sampled: C15-R7 the evaluated ARCHETYPE_ID/COMPONENT_ID/NUM_ARCHETYPES constants of the specimen equal an independent oracle.",
+    not_decided="token emission of the ids (quote! interpolation) is witnessed on the specimen constants, not proved for all declarations",
+)
+
+prop(
+    "C16",
+    rules=["C16-R1", "C16-R3", "C16-R4", "C16-R5", "C05-R1"],
+    mir_rules=[M.rule_collectors, M.rule_cfg_lookup, M.rule_dataworld, M.rule_bind_query_params],
+    floors={"C16-R1": 15, "C16-R3": 12, "C16-R4": 6, "C16-R5": 1},
+    explanation="Static analysis on the macro crate's MIR: C16-R1 the expand side and the impl side of each of the six entry kinds use the same HasCfgPredicates impl (same T), the query impls delegate to one get_cfg_predicates, both collectors push a predicate iff "
+    "HashSet::insert(to_string(predicate)) reports it new (first-appearance order); C16-R3 ParseCfgDecorated::parse inserts (to_string(predicate_i), state_i) over zip(predicates, states) after asserting equal lengths, evaluate_cfgs/is_cfg_enabled look up "
+    "to_string(cfg.predicate) and form the conjunction; C16-R4 disabled archetypes/components are skipped before ids, structs and matching see them, disabled query parameters bind to every archetype (C05-R1 !enabled disjunct); C16-R5 cfg on OneOf is rejected.",
+    not_decided="that rustc evaluates cfg (trusted); the literal shape of the generated probe chain and the #attrs emission are judged by the template rules",
 )
